@@ -126,8 +126,16 @@ TypeIdAt(segs) == {i \in 1..Len(segs) : segs[i].tag = "typeid"}
 CtDesc(cs, prep) == LET t == [k |-> "vector", e |-> NT("int"), d |-> 2, class |-> cs] IN
   IF prep THEN Prepared(<<5>>, None, PMeta(TRUE, <<Col("ks", "t", "v", t)>>, << >>, 0), Meta(TRUE, <<Col("ks", "t", "v", t)>>, None, None))
   ELSE Rows(OneCol(t), <<t>>, << >>)
+\* ... and with one row whose cell is 8 bytes (whatever the named type makes of them)
+CtDescRow(cs) == LET t == [k |-> "vector", e |-> NT("int"), d |-> 2, class |-> cs] IN
+  Rows(OneCol(t), <<t>>, << <<[k |-> "seq", vs |-> <<IV(0, <<1>>), IV(1, <<2>>)>>]>> >>)
+Repeat(s, n) == IF Len(s) = 0 THEN << >> ELSE [i \in 1..(n * Len(s)) |-> s[((i - 1) % Len(s)) + 1]]
+DeepCt(r) == Repeat(r.pre, r.n) \o r.mid \o Repeat(r.post, r.n)
 VARIABLE c
 Init ==
+  \/ \E i \in 1..Len(CtDeep) : LET d == CtDesc(DeepCt(CtDeep[i]), FALSE) IN c = [kind |-> "ctype", d |-> d, x |-> Plain, comp |-> "none", segs |-> SFrame(d, Plain)]
+  \/ \E i \in 1..Len(CtGood) : LET d == CtDescRow(CtGood[i]) IN c = [kind |-> "ctype", d |-> d, x |-> Plain, comp |-> "none", segs |-> SFrame(d, Plain)]
+  \/ \E i \in 1..Len(CtBad) : LET d == CtDescRow(CtBad[i]) IN c = [kind |-> "ctype", d |-> d, x |-> Plain, comp |-> "none", segs |-> SFrame(d, Plain)]
   \/ \E i \in 1..Len(CtGood) : \E prep \in BOOLEAN : LET d == CtDesc(CtGood[i], prep) IN c = [kind |-> "ctype", d |-> d, x |-> Plain, comp |-> "none", segs |-> SFrame(d, Plain)]
   \/ \E i \in 1..Len(CtBad) : \E prep \in BOOLEAN : LET d == CtDesc(CtBad[i], prep) IN c = [kind |-> "ctype", d |-> d, x |-> Plain, comp |-> "none", segs |-> SFrame(d, Plain)]
   \/ \E d \in Descs : c = [kind |-> "wf", d |-> d, x |-> Plain, comp |-> "none", segs |-> SFrame(d, Plain)]
